@@ -217,7 +217,11 @@ def convert(e, T):
 
 # ---------------------------------------------------------------------------- source slicing
 def strip_comments(src):
+    """Remove comments and the verification hook lines (statements `PIKA_VERIF_*(...);`, which
+    expand to `((void) 0)` unless PIKA_VERIF_HOOKS is defined, and `else { PIKA_VERIF_*(...); }`)."""
     src = re.sub(r'//[^\n]*', '', src)
+    src = re.sub(r'^[ \t]*else \{ PIKA_VERIF_(?:POINT|PRE|POST)\([^;]*\); \}[ \t]*\n', '', src, flags=re.M)
+    src = re.sub(r'^[ \t]*PIKA_VERIF_(?:POINT|PRE|POST)\([^;]*\);[ \t]*\n', '', src, flags=re.M)
     src = re.sub(r'/\*.*?\*/', '', src, flags=re.S)
     return src
 
